@@ -174,6 +174,11 @@ func (vc *VC) lookupLocal(env *SpecEnv, name string) (types.Object, bool) {
 }
 
 func (vc *VC) specEval(env *SpecEnv, e SExpr) Val {
+	if vc.safe {
+		// specification expressions generate no run-time safety obligations
+		vc.safe = false
+		defer func() { vc.safe = true }()
+	}
 	switch e := e.(type) {
 	case *SLit:
 		if e.Kind == "string" {
